@@ -1,4 +1,5 @@
 import ShkModel.Lemmas.Prompt
+import ShkModel.Props.C03
 /-!
 # C05 — a play runs to the end of its script unless a failure is reported
 
@@ -241,5 +242,40 @@ example : (perform Ex.envTimeout Ex.play ⟨2, -1, true⟩ 50).1.map (·.pos) = 
 -- without repeat clause: one pass
 example : (perform Ex.env Ex.play ⟨0, -1, false⟩ 50).1.map (·.pos) = expectedTrace Ex.play ⟨0, -1, false⟩ 1 := by
   decide
+
+/-! ## The other processes of the play: spotlights that keep running, exit by themselves with status 0, or are absent
+
+While the prompter performs the script the conductor sits in its first stage (`awaitStage .pr`), listening to the
+prompter and to the components behind it.  The spotlights' manager reporting *without an error* — a spotlight command that
+exits with status 0 on its own, or a cast without spotlights, whose manager returns at once — is waited through: the stage
+still ends with the prompter's own result, so the play runs to the end of its script.  (Spotlights that keep running
+simply do not report before the prompter.) -/
+
+open Shk.Conduct in
+/-- a spotlight manager that finishes without error while the play is being performed does not end it: the conductor
+goes on waiting for the prompter, with the rest of what the runtime shows it -/
+theorem bystanders_do_not_end_play (seen : List Comp) (rest : List Arrival) (hpr : seen.contains Comp.pr = false) :
+    awaitStage .pr [.sp, .au, .col] seen (⟨.sp, false⟩ :: rest) =
+      awaitStage .pr [.sp, .au, .col] (.sp :: seen) rest := by
+  have hmem : Comp.pr ∉ seen := by
+    intro hm
+    have : seen.contains Comp.pr = true := List.contains_iff_mem.mpr hm
+    rw [hpr] at this; cases this
+  rw [awaitStage]
+  simp [hmem]
+
+open Shk.Conduct in
+/-- … whatever else is reported and in whatever order: only a component reporting an *error* makes the conductor stop
+the play before the prompter has finished -/
+theorem only_an_error_ends_the_play_early (seen : List Comp) (arrs : List Arrival)
+    (h : (awaitStage .pr [.sp, .au, .col] seen arrs).interrupt = true) : ∃ a ∈ arrs, a.err = true :=
+  Shk.C03.awaitStage_interrupt_needs_error .pr [.sp, .au, .col] seen arrs h
+
+open Shk.Conduct in
+/-- the rule of the pinned commit did end the play when a spotlight exited with status 0 before the prompter was done
+(the defect repaired by d953693 / 3ddb114): witness -/
+theorem old_rule_ended_the_play_on_a_quiet_spotlight :
+    (awaitStageOld .pr [.sp, .au, .col] [] [⟨.sp, false⟩, ⟨.pr, false⟩]).interrupt = true ∧
+    (awaitStage .pr [.sp, .au, .col] [] [⟨.sp, false⟩, ⟨.pr, false⟩]).interrupt = false := by decide
 
 end Shk.C05
